@@ -77,6 +77,14 @@ def readAllowEnv (env : Option String) : List String :=
   | none => []
   | some e => if e.isEmpty then [] else ((e.splitOn ",").map stripStr).filter (fun s => !s.isEmpty)
 
+/-- `read_allowlist()`: `OF_SAFE_METRICS_FILE` wins whenever it can be read (`file = some l`, `l` = its `safe_metrics` list, `[]`
+when the key is absent or the list is empty: lock-down); only an unset variable or an unreadable file (`file = none`) falls
+through to `OF_SAFE_METRICS` -/
+def readAllowlist (file : Option (List String)) (env : Option String) : List String :=
+  match file with
+  | some l => l
+  | none => readAllowEnv env
+
 /-! ## export -/
 
 /-- what `dp.data.data_points[0]` looks like to the `hasattr` tests -/
